@@ -629,3 +629,158 @@ pub fn c11(cx: &Cx) -> i32 {
     rep.assumptions = vec!["user default expressions are embedded as written; their evaluation is not part of the analysis".into(), "`_` as the value means no value (decided at attribute parse time, outside the builder)".into()];
     rep.finish("other", "static analysis: the Default builders are evaluated symbolically; struct: a type-level value wins, otherwise each field is its own given expression (through Into::<FieldTy> exactly for string literals and paths) or <FieldTy as Default>::default(); enum (1, 2 and 3 unrolled variants, all mark combinations): exactly one mark (without value) or the only variant is chosen, otherwise a derive_ex error", "rule instances = (rule, role, path, field)")
 }
+
+// =============================================================================================== C09
+fn leaf_is(inst: &Instance, ident: &str, pred: &dyn Fn(&str) -> bool) -> bool { inst.leaves.get(ident).map(|l| pred(&l.path)).unwrap_or(false) }
+
+pub fn c09(cx: &Cx) -> i32 {
+    use crate::eval::*;
+    use crate::misc::{find_fn, sig_text};
+    let mut rep = cx.report("C09");
+    let ix = &cx.ix;
+    let Some(f) = find_fn(ix, &|f| sig_text(f).contains("&ItemImpl") && sig_text(f).contains("->Result<TokenStream>")) else {
+        rep.fail("roles", "impl", "builder", "the builder for `impl` items (TokenStream, &ItemImpl) -> Result<TokenStream> was not found", "item_impl.rs", json!({}));
+        return rep.finish("other", "-", "-");
+    };
+    let site = format!("{}:{} {}", f.file, f.line, f.qual);
+    // helpers summarised by symbolic results (each has its own decision-model rule)
+    let ref_elem = find_fn(ix, &|g| g.self_ty.is_none() && sig_text(g).contains("->(Type,bool)"));
+    let to_rhs = find_fn(ix, &|g| g.self_ty.is_none() && sig_text(g).contains("&PathSegment") && sig_text(g).contains("->Type"));
+    let mut ev = mk_ev(ix);
+    let cg = crate::roles::CallGraph::build(ix);
+    for c in cg.edges.get(&f.qual).cloned().unwrap_or_default() {
+        if let Some(g) = ix.get_fn(&c) { if sig_text(&g).contains("->Result<") && c != f.qual { ev.stops.push((c.clone(), "ret")); } }
+    }
+    if let Some(g) = &ref_elem { ev.stops.push((g.qual.clone(), "ret")); }
+    if let Some(g) = &to_rhs { ev.stops.push((g.qual.clone(), "ret")); }
+    if ref_elem.is_none() || to_rhs.is_none() { rep.fail("unanalysable", "impl", "helpers", "base-form detection helpers ((&Type) -> (Type, bool), (&PathSegment, &Type) -> Type) not found", &site, json!({})); }
+    let mut all_ops_seen = 0;
+    let op_parser = find_fn(ix, &|g| g.self_ty.as_deref() == Some("Op") && sig_text(g).contains("&Ident") && sig_text(g).contains("Result<Self>"));
+    let Some(op_parser) = op_parser else { rep.fail("unanalysable", "impl", "op-parser", "parser of the base impl's trait name (&Ident) -> Result<Op> not found", &site, json!({})); return rep.finish("other", "-", "-"); };
+    let op_fields: Vec<String> = ix.structs.get("Op").map(|s| s.fields.iter().map(|f| f.0.clone()).collect()).unwrap_or_default();
+    let (Some(op_f), Some(form_f)) = (ix.structs.get("Op").and_then(|s| s.fields.iter().find(|f| crate::index::ty_str(&f.1) == "BinaryOp").map(|f| f.0.clone())), ix.structs.get("Op").and_then(|s| s.fields.iter().find(|f| crate::index::ty_str(&f.1) == "OpForm").map(|f| f.0.clone()))) else { rep.fail("unanalysable", "impl", "op-struct", &format!("struct Op {{ BinaryOp, OpForm }} not found ({op_fields:?})"), &site, json!({})); return rep.finish("other", "-", "-"); };
+    for (opname, form) in BINOPS.iter().flat_map(|x| [(x.0, "Binary"), (x.0, "Assign")]) {
+        let (_, fn_name) = BINOPS.iter().find(|x| x.0 == opname).unwrap();
+        ev.stop_vals.insert(op_parser.qual.clone(), Val::ok(Val::Struct { name: "Op".into(), fields: vec![(op_f.clone(), Val::Enum { ty: "BinaryOp".into(), var: opname.to_string(), args: vec![] }), (form_f.clone(), Val::Enum { ty: "OpForm".into(), var: form.to_string(), args: vec![] })] }));
+        let outs = ev.call_fn(St::new(), &f, None, vec![Val::Sym { ty: Ty::Named("TokenStream".into(), vec![]), path: "attr".into() }, Val::Sym { ty: Ty::Named("ItemImpl".into(), vec![]), path: "item_impl".into() }]);
+        all_ops_seen += 1;
+        let label = format!("impl/{opname}{}", if form == "Assign" { "Assign" } else { "" });
+        let mut cache = InstCache::default();
+        let mut configs = std::collections::BTreeSet::new();
+        for (stp, fl) in &outs {
+            let c = &stp.cond;
+            // only paths on which every parse step succeeded
+            if c.iter().any(|(a, b)| a.starts_with("ok(") && !*b) { continue; }
+            if c.iter().any(|(a, b)| a.contains(".is_some(") && *b) { continue; } // negative impl
+            let get = |suffix: &str| c.iter().find(|(a, _)| a.ends_with(suffix)).map(|(_, b)| *b);
+            let is_binary = form == "Binary";
+            let (mb, ma, dump) = (get(".make_binary").unwrap_or(false), get(".make_assign").unwrap_or(false), get(".dump").unwrap_or(false));
+            // base form flags
+            let flags: Vec<(String, bool)> = c.iter().filter(|(a, _)| a.ends_with(").1") || a.ends_with("#.1")).map(|(a, b)| (a.clone(), *b)).collect();
+            let l_flag = flags.iter().find(|(a, _)| a.contains("self_ty")).map(|x| x.1);
+            let r_flag = flags.iter().find(|(a, _)| !a.contains("self_ty")).map(|x| x.1);
+            let cs = cond_str(c);
+            let v = match fl { Flow::Val(v) | Flow::Ret(v) => v, _ => { rep.fail("unanalysable", &label, "flow", "path neither returns nor errs", &site, json!({})); continue } };
+            let (is_ok, payload) = match v { Val::Enum { var, args, .. } if var == "Ok" => (true, args.first().cloned()), Val::Enum { var, .. } if var == "Err" => (false, None), _ => { rep.fail("unanalysable", &label, "result", "result is not Ok/Err", &site, json!({})); continue } };
+            // ---- reference: which impls, how each calls the base
+            if !is_binary {
+                // base is `impl OpAssign<Rhs> for T`
+                if ma { rep.check(!is_ok, "DM-forms", &label, "assign-from-assign", "OpAssign requested on an OpAssign impl is not refused", &site, json!({"path": cs})); continue; }
+                if dump { rep.check(!is_ok, "DM-forms", &label, "dump", "dump does not turn the result into an error", &site, json!({"path": cs})); continue; }
+                if !is_ok { rep.fail("DM-forms", &label, "valid-rejected", "a valid request on an OpAssign impl is refused", &site, json!({"path": cs})); continue; }
+            } else {
+                if dump { rep.check(!is_ok, "DM-forms", &label, "dump", "dump does not turn the result into an error", &site, json!({"path": cs})); continue; }
+                if !is_ok { rep.fail("DM-forms", &label, "valid-rejected", "a valid request on an Op impl is refused", &site, json!({"path": cs})); continue; }
+            }
+            let Some(payload) = payload else { continue };
+            let inst = cache.get(&payload, 2);
+            let Ok(inst) = &*inst else { if let Err(e) = &*inst { rep.fail("TP-parse", &label, "parse", e, &site, json!({"path": cs})); } continue };
+            configs.insert((is_binary, mb, ma, l_flag, r_flag));
+            let ims = find_impls(&inst.file);
+            // expected list
+            #[derive(Debug, Clone, PartialEq)]
+            struct Want { assign: bool, l: bool, r: bool, call_assign: bool, call_l: bool, call_r: bool, rhs_orig: bool, this_orig: bool }
+            let mut want: Vec<Want> = Vec::new();
+            if is_binary {
+                let (bl, br) = (l_flag.unwrap_or(false), r_flag.unwrap_or(false));
+                if (mb || ma) && (l_flag.is_none() && mb || r_flag.is_none() && mb) { rep.fail("DM-forms", &label, "base-form-unread", "forms are generated without determining the base impl's own form", &site, json!({"path": cs})); continue; }
+                if mb { for l in [false, true] { for r in [false, true] { if (l, r) != (bl, br) { want.push(Want { assign: false, l, r, call_assign: false, call_l: bl, call_r: br, rhs_orig: false, this_orig: false }); } } } }
+                if ma {
+                    if mb { want.push(Want { assign: true, l: false, r: false, call_assign: false, call_l: true, call_r: false, rhs_orig: false, this_orig: false }); want.push(Want { assign: true, l: false, r: true, call_assign: false, call_l: true, call_r: true, rhs_orig: false, this_orig: false }); }
+                    else { want.push(Want { assign: true, l: false, r: br, call_assign: false, call_l: bl, call_r: br, rhs_orig: true, this_orig: false }); }
+                }
+            } else if mb { want.push(Want { assign: false, l: false, r: false, call_assign: true, call_l: false, call_r: false, rhs_orig: true, this_orig: true }); }
+            if ims.len() != want.len() { rep.fail("DM-forms", &label, "impl-count", &format!("base {} (lhs by ref {l_flag:?}, rhs by ref {r_flag:?}), requested Op={mb} OpAssign={ma}: {} impls generated, {} expected", if is_binary { "Op" } else { "OpAssign" }, ims.len(), want.len()), &site, json!({"path": cs})); continue; }
+            rep.pass("DM-forms");
+            let bin_trait = format!("::core::ops::{opname}");
+            let asg_trait = format!("::core::ops::{opname}Assign");
+            let this_elem = |s: &str| leaf_is(inst, s.trim_start_matches('&'), &|p| p.contains("self_ty") && (p.ends_with(".0") || p == "item_impl.self_ty"));
+            for (im, w) in ims.iter().zip(want.iter()) {
+                let tp = im.trait_.as_ref().map(|t| crate::sem::canon_path(&t.1)).unwrap_or_default();
+                let want_trait = if w.assign { &asg_trait } else { &bin_trait };
+                let hdr_r = tp.find('<').map(|i| tp[i + 1..].starts_with('&')).unwrap_or(false);
+                let hdr_l = type_is_ref(&im.self_ty);
+                // for forms that keep the user's own types (rhs_orig / this_orig) the reference-ness is inside the leaf
+                let l_ok = w.this_orig || hdr_l == w.l;
+                let r_ok = w.rhs_orig || hdr_r == w.r;
+                let self_ok = this_elem(&ty_text(&im.self_ty));
+                // generics and where-clause are the user's, Self-expanded
+                let g_ok = quote::ToTokens::to_token_stream(&im.generics).to_string().contains("__G_x_") && im.generics.where_clause.as_ref().map(|w| quote::ToTokens::to_token_stream(w).to_string().contains("__G_x_")).unwrap_or(false);
+                rep.check(tp.starts_with(want_trait.as_str()) && (w.assign || !tp.starts_with(&asg_trait)) && l_ok && r_ok && self_ok, "DM-forms", &label, "impl-header", &format!("expected `impl {want_trait}<{}Rhs> for {}T`, found `impl {tp} for {}`", if w.r { "&" } else { "" }, if w.l { "&" } else { "" }, ty_text(&im.self_ty)), &site, json!({"path": cs}));
+                rep.check(g_ok, "TP-forward", &label, "generics", "a generated impl does not carry the user's generics and where-clause (with Self expanded)", &site, json!({"path": cs}));
+                let mname = if w.assign { format!("{fn_name}_assign") } else { fn_name.to_string() };
+                let Some(m) = method(im, &mname) else { rep.fail("DM-forms", &label, "method-name", &format!("no method `{mname}` in the generated impl of {tp}"), &site, json!({"path": cs})); continue };
+                if !w.assign {
+                    let out = im.items.iter().find_map(|i| if let syn::ImplItem::Type(t) = i { if t.ident == "Output" { Some(ty_text(&t.ty)) } else { None } } else { None });
+                    let ok = match &out { Some(o) => if is_binary { leaf_is(inst, o, &|p| p.contains("expand_self") || p.contains("output")) || o.starts_with("__x_") } else { this_elem(o) }, None => false };
+                    rep.check(ok, "TP-forward", &label, "output", &format!("`Output` is not the user's (Self-expanded) Output / the operand type: {out:?}"), &site, json!({"path": cs}));
+                }
+                let mut sem = Sem::new();
+                let body = sem.method(m);
+                // the single forwarding call
+                let call: Option<&Tm> = match (&body, w.assign, w.call_assign) {
+                    (Tm::Assign(l, r), true, _) if **l == Tm::SelfVal || **l == Tm::Deref(Box::new(Tm::SelfVal)) => Some(&**r),
+                    (Tm::Seq(s, v), false, true) if s.len() == 1 && **v == Tm::SelfVal => Some(&s[0]),
+                    (b, false, false) => Some(b),
+                    _ => None,
+                };
+                let Some(Tm::Call { qself: Some((lty, tr)), path, args }) = call else { rep.fail("TP-forward", &label, "shape", &format!("the generated method is not one forwarding call in the documented shape: {}", body.show().chars().take(240).collect::<String>()), &site, json!({"path": cs})); continue };
+                let callee_trait = if w.call_assign { &asg_trait } else { &bin_trait };
+                let callee_fn = if w.call_assign { format!("{fn_name}_assign") } else { fn_name.to_string() };
+                let mut ok = tr.starts_with(callee_trait.as_str()) && (w.call_assign || !tr.starts_with(&asg_trait)) && *path == callee_fn && args.len() == 2;
+                let mut why = String::new();
+                if !ok { why = format!("callee <{lty} as {tr}>::{path}"); }
+                if ok {
+                    // callee form
+                    let c_l = lty.starts_with('&');
+                    let c_r = tr.find('<').map(|i| tr[i + 1..].starts_with('&')).unwrap_or(false);
+                    if !w.this_orig && c_l != w.call_l { ok = false; why = format!("the base is called as `{lty}`, its form takes the left operand by {}", if w.call_l { "reference" } else { "value" }); }
+                    if !w.rhs_orig && c_r != w.call_r { ok = false; why = format!("the base is called with `{tr}`, its form takes the right operand by {}", if w.call_r { "reference" } else { "value" }); }
+                    if !this_elem(lty) { ok = false; why = format!("callee self type {lty}"); }
+                }
+                if ok {
+                    // operand adapters: received (w.l / w.r; `&mut self` counts as by reference) -> needed (call_l / call_r)
+                    let recv_l = if w.assign { true } else { w.l };
+                    let adapt_ok = |t: &Tm, base: &Tm, recv: bool, need: bool, orig: bool| -> bool {
+                        if orig { return t == base || (w.call_assign && *t == Tm::RefMut(Box::new(base.clone()))); }
+                        match (recv, need) {
+                            (true, false) => matches!(t, Tm::Call { qself: Some((_, tr)), path, args } if ends(tr, "clone::Clone") && path == "clone" && args.len() == 1 && args[0] == *base),
+                            (false, true) => *t == Tm::Ref(Box::new(base.clone())),
+                            _ => t == base,
+                        }
+                    };
+                    if !adapt_ok(&args[0], &Tm::SelfVal, recv_l, w.call_l, w.this_orig) { ok = false; why = format!("left operand passed as {}", args[0].show()); }
+                    if !adapt_ok(&args[1], &Tm::Param(1), w.r, w.call_r, w.rhs_orig) { ok = false; why = format!("right operand passed as {}", args[1].show()); }
+                }
+                rep.check(ok, "TP-forward", &label, "forwarding-call", &format!("generated `impl {tp} for {}`: the method does not forward once to the user's impl with (self, rhs) in that order, cloning exactly the operands received by reference but needed by value ({why})", ty_text(&im.self_ty)), &site, json!({"path": cs, "body": body.show().chars().take(300).collect::<String>()}));
+            }
+        }
+        rep.analysed.insert(format!("{label} configurations (base kind, Op, OpAssign, lhs ref, rhs ref)"), json!(configs.len()));
+        if opname == "Sub" && form == "Binary" { rep.floor("impl-item configurations analysed (Op base)", configs.len(), 9); }
+    }
+    rep.unanalysable("impl builder", &{ let mut u = ev.unsupported.borrow().clone(); u.sort(); u.dedup(); u });
+    rep.floor("operator x base-kind configurations analysed on impl items", all_ops_seen, 20);
+    crate::misc::impl_helpers_rule(cx, &mut rep);
+    rep.assumptions = vec!["what the user's impl computes is not analysed; the analysis fixes that every generated form forwards once, in order, with the documented clone / reborrow adapters".into(), "operator name tables are checked by DM-op-tables (shared with C08)".into()];
+    rep.finish("other", "static analysis: the builder for `impl` items is evaluated over base kind (Op / OpAssign) x base form (lhs by ref, rhs by ref) x requested set; the list of generated impls, their headers, Output, generics and the single forwarding call with its operand adapters are compared with the documented forwarding rules; change_owned, the reference-form detection and the Rhs default are checked as decision models", "rule instances = (rule, operator, configuration, generated impl)")
+}
